@@ -117,7 +117,8 @@ def build():
     reg.add_class(ClassInfo('ComputeFrame', CS, dict(all_symbol_defs=Set(Any), defined_symbols=Dict(Any, Set(Any)), symbol_bit_vector_manager=BVM, all_local_symbol_ids=Set(Any),
                                                      method_def_use_summary=Obj('MethodDefUseSummary'), stmt_id_to_status=Dict(Any, Obj('StmtStatus')), cfg=Any,
                                                      stmt_counters=Dict(Any, Int), is_first_round=Dict(Any, Any), symbol_state_space=Opaque('SymbolStateSpace'),
-                                                     symbol_graph=Opaque('SymbolGraph'), state_flow_graph=Opaque('StateFlowGraph'), call_site=Any, stmts_with_symbol_update=Any)))
+                                                     symbol_graph=Opaque('SymbolGraph'), state_flow_graph=Opaque('StateFlowGraph'), call_site=Any, stmts_with_symbol_update=Opaque('SimpleSet'))))
+    reg.add_class(ClassInfo('SimpleSet', CS, {}, kind='opaque'))
     reg.add_class(ClassInfo('SymbolStateSpace', CS, {}, kind='opaque'))
     reg.add_class(ClassInfo('SymbolGraph', CS, {}, kind='opaque'))
     reg.add_class(ClassInfo('StateFlowGraph', CS, {}, kind='opaque'))
@@ -479,6 +480,40 @@ def build():
                               ('OUT-holds-every-incoming-definition-of-a-symbol-not-defined-here-(pass-through)', fold_post('pass')),
                               ('OUT-holds-the-last-definition-generated-here-for-each-symbol-(gen)', fold_post('gen'))],
                      modifies=lambda c: {'*': True}))
+    # ---- update_symbols_if_changed: the change notification after the transfer (uses re-bound when IN changed, successors re-queued when OUT changed) ------------------
+    @reg.extern_method('SimpleSet', 'add', 'SimpleSet.add(list of statement ids): queues them for a symbol update (ghost flag; the set itself is C13)')
+    def _ss_add(ex, st, node, recv, args, kwargs):
+        st.ghost['requeued'] = z3.BoolVal(True)
+        return V(recv.t, Opaque('SimpleSet'))
+
+    def usic_ghost(ex, st):
+        st.ghost['rebound_full'] = z3.BoolVal(False)
+        st.ghost['rebound_implicit'] = z3.BoolVal(False)
+        st.ghost['requeued'] = z3.BoolVal(False)
+
+    def before_rebind(ex, st, bound):
+        mode = ex.truth(bound['only_implicitly_used_symbols'], st) if hasattr(ex, 'truth') else S.bval(bound['only_implicitly_used_symbols'].t)
+        st.ghost['rebound_implicit'] = z3.Or(st.ghost['rebound_implicit'], mode)
+        st.ghost['rebound_full'] = z3.Or(st.ghost['rebound_full'], z3.Not(mode))
+    reg.add(Contract(PS, 'P2PrelimSemanticAnalysis.update_used_symbols_to_symbol_graph', dict(self=P2, stmt_id=Any, stmt=Any, frame=FR, only_implicitly_used_symbols=Any), returns=Any,
+                     opaque=True, modifies=lambda c: {}, note='binds the uses of the statement to the definitions in its IN set (edges of the symbol graph; C06 second half, not under contract)'))
+
+    def bits(h, x):
+        return h.dom(x)
+    changed_in = lambda c: bits(c.old, c.old.attr(c.p.status, 'in_symbol_bits')) != bits(c.old, c.p.old_in_symbol_bits)
+    changed_out = lambda c: bits(c.old, c.old.attr(c.p.status, 'out_symbol_bits')) != bits(c.old, c.p.old_out_symbol_bits)
+    reg.add(Contract(PS, 'P2PrelimSemanticAnalysis.update_symbols_if_changed',
+                     dict(self=P2, stmt_id=Int, stmt=Obj('GIRRow'), frame=FR, status=Obj('StmtStatus'), old_in_symbol_bits=Set(Any), old_out_symbol_bits=Set(Any), def_changed=Bool, use_changed=Bool),
+                     returns=NoneT, ghost_init=usic_ghost, before_call_hooks={'P2PrelimSemanticAnalysis.update_used_symbols_to_symbol_graph': before_rebind},
+                     ensures=[('the-uses-of-the-statement-are-re-bound-to-their-reaching-definitions-whenever-its-IN-set-changed',
+                               lambda c: z3.Implies(z3.And(changed_in(c), z3.Not(S.bval(c.p.use_changed))), c.g.rebound_full)),
+                              ('implicit-uses-are-re-bound-when-the-use-set-changed', lambda c: z3.Implies(S.bval(c.p.use_changed), c.g.rebound_implicit)),
+                              ('successors-are-queued-again-whenever-the-OUT-set-or-the-definition-changed',
+                               lambda c: z3.Implies(z3.Or(changed_out(c), S.bval(c.p.def_changed)), c.g.requeued)),
+                              ('nothing-is-re-bound-or-queued-when-nothing-changed',
+                               lambda c: z3.Implies(z3.And(z3.Not(changed_in(c)), z3.Not(changed_out(c)), z3.Not(S.bval(c.p.def_changed)), z3.Not(S.bval(c.p.use_changed))),
+                                                    z3.And(z3.Not(c.g.rebound_full), z3.Not(c.g.rebound_implicit), z3.Not(c.g.requeued))))],
+                     modifies=lambda c: {'list': (lambda a: a >= c.old.next)}))
     return reg
 
 
@@ -515,6 +550,7 @@ ASSUMPTIONS = [
     'THE FIXPOINT IS NOT PROVED: what is proved are the dataflow EQUATIONS at one statement (meet over the selected predecessors, kill/gen transfer, fold over the defined symbols, '
     'use lookup) and symbol identity of temporaries. That analyze_stmts iterates them to the classical solution is false on this tree (known finding F8) and, with the bounded '
     'round counters, not guaranteed even with a coherent worklist; the loop-free "exactly the classical solution" sentence is therefore not decided',
+    'update_symbols_if_changed is under contract (WHEN uses are re-bound / successors re-queued); what update_used_symbols_to_symbol_graph writes is not', 
     'analyze_reachable_symbols is verified up to (not including) the change notification (update_symbols_if_changed / update_used_symbols_to_symbol_graph): the edges written into the '
     'symbol graph and the SFG are not under contract; SymbolGraph/StateFlowGraph.add_edge, SFGNode, SFGEdge are opaque records',
     'util.graph_predecessors returns the predecessor ids of the CFG (uninterpreted), util.get_graph_edge_weight the kind stored on the edge (bounded stand-in on the real function); '
@@ -538,6 +574,7 @@ QUICK_CANARIES = {
     'P2PrelimSemanticAnalysis.update_current_symbol_bit': ['delete-stmt[current_bits = frame.symbol_bit_vector_manager.kill_bit_ids', 'delete-stmt[frame.all_symbol_defs.add(bit_id)]',
                                                            'delete-stmt[frame.defined_symbols[symbol_id].add(bit_id)]'],
     'P2PrelimSemanticAnalysis.check_reachable_symbol_defs': ['negate-condition', 'delete-stmt[reachable_symbol_defs = available_symbol_defs & frame.defined_symbols[used_symbol_id]]'],
+    'P2PrelimSemanticAnalysis.update_symbols_if_changed': ['swap-and-or', 'flip-comparison', 'delete-stmt[frame.stmts_with_symbol_update.add('],
     'P2PrelimSemanticAnalysis.analyze_reachable_symbols': ['flip-comparison', 'delete-stmt[status.in_symbol_bits |= frame.stmt_id_to_status[each_parent_stmt_id].out_symbol_bits]',
                                                            'delete-stmt[current_bits = self.update_current_symbol_bit(key, frame, current_bits)]'],
     'StmtDefUseAnalysis.add_status_with_symbol_id_sync': ['negate-condition'],
